@@ -27,6 +27,7 @@ type Prog struct {
 	ownCache map[string]string
 	relCache map[string]bool
 	fdCache  map[string]*FieldDecl
+	depCache map[string]map[*ssa.Function]bool
 }
 
 func loadProg(repo string, patterns []string) *Prog {
